@@ -1,3 +1,3 @@
-CONSTANT Lens = {4}
+CONSTANT LB = 12
 SPECIFICATION Spec
 CHECK_DEADLOCK FALSE
